@@ -68,7 +68,7 @@ Section replay.
     NoDup (l.*1) ->
     (forall a, a ∈ l.*1 -> acc !! a = None) ->
     replay (flat_map (fun al : N * listener =>
-                        RAddListener k (fst al) (snd al)
+                        RAddListener k (fst al) (snd al) true
                         :: (if l_active (snd al) then [RActivate (proxy_of k) (fst al)] else [])) l)
            (set_l k s acc)
     = (set_l k s (list_to_map l ∪ acc), 0%nat).
@@ -81,7 +81,7 @@ Section replay.
       assert (Hset : forall m m', set_l k (set_l k s m) m' = set_l k s m') by (intros; destruct k; reflexivity).
       assert (Hkind : kind_of (proxy_of k) = Some k) by (destruct k; reflexivity).
       cbn [flat_map fst snd]. destruct (l_active li) eqn:Hact.
-      + cbn [app Model.replay Model.dispatch]. unfold add_listener. rewrite Hget, Ha, Hset.
+      + cbn [app Model.replay Model.dispatch]. unfold add_listener. rewrite andb_false_r, Hget, Ha, Hset.
         unfold set_active. rewrite Hkind, Hget, lookup_insert, Hset.
         rewrite insert_insert.
         assert (Eli : Listener true (l_fields li) (l_rest li) = li) by (destruct li; cbn in *; subst; reflexivity).
@@ -91,7 +91,7 @@ Section replay.
           apply union_insert_swap. apply not_elem_of_list_to_map_1. exact Hni.
         * intros b Hb. rewrite lookup_insert_ne; [apply Hacc; right; exact Hb|].
           intros ->. apply Hni. exact Hb.
-      + cbn [app Model.replay Model.dispatch]. unfold add_listener. rewrite Hget, Ha, Hset.
+      + cbn [app Model.replay Model.dispatch]. unfold add_listener. rewrite andb_false_r, Hget, Ha, Hset.
         rewrite IH; [|exact Hnd'|].
         * cbn [list_to_map foldr fst snd]. f_equal. f_equal.
           apply union_insert_swap. apply not_elem_of_list_to_map_1. exact Hni.
@@ -143,7 +143,7 @@ Section replay_generate.
   Theorem section_order_free s :
     (forall k m l, get_l k s = ∅ -> l ≡ₚ map_to_list m ->
        replay (flat_map (fun al : N * listener =>
-                           RAddListener k (fst al) (snd al)
+                           RAddListener k (fst al) (snd al) true
                            :: (if l_active (snd al) then [RActivate (proxy_of k) (fst al)] else [])) l) s
        = (set_l k s m, 0%nat))
     /\ (forall m l, clusters s = ∅ -> l ≡ₚ map_to_list m ->
